@@ -52,3 +52,10 @@ func (v *VerifAbacoRing) Readable() int { return v.dev.ring.BytesReadable() }
 
 // Stop closes the device.
 func (v *VerifAbacoRing) Stop() error { return v.dev.stop() }
+
+// ReadAllPackets calls the device's ReadAllPackets and reports how many packets it returned (the bytes it
+// consumed from the ring are observed through Readable before and after).
+func (v *VerifAbacoRing) ReadAllPackets() (int, error) {
+	ps, err := v.dev.ReadAllPackets()
+	return len(ps), err
+}
